@@ -17,7 +17,7 @@ CONFIG = {
                    "forms whose meaning is position independent; -sf beneath a folder with files matching non-default "
                    "history patterns is n/a (C02 and C12 disagree there); symlinks are not generated."),
     "technique": "deterministic simulation: seeded tree/history/option exploration against an independent record-set model",
-    "quick": {"runs": 1200, "budget_s": 90},
+    "quick": {"runs": 2000, "budget_s": 120},
     "thorough": {"runs": 8000, "budget_s": 540},
     "rule": ("one run = random world + 3..12 operations; one evaluation = one executed command. Distinct = (mode folder/sf, "
              "#histories written, #file records class, #dir records class, has-empty-dir, name classes, -n, patterns "
